@@ -125,6 +125,8 @@ static Bytes l4_bytes(const Req& q, bool reply, const Addr& src, const Addr& dst
         case 2: { proto = 17; return udp_bytes(sport, dport, dns_bytes(id, reply, q.qname, reply), src, dst); }
         case 3: case 4: case 5: { proto = 1; static const uint8_t rq[3] = { 8, 13, 17 }, rp[3] = { 0, 14, 18 }; uint8_t t = reply ? rp[q.l4 - 3] : rq[q.l4 - 3]; if (icmp_type_override >= 0) t = (uint8_t)icmp_type_override;
                   Bytes rest = q.l4 == 3 ? (reply ? q.payload : q.payload) : q.l4 == 4 ? Bytes(12, 0) : Bytes(4, 0); return icmp_bytes(t, 0, id, sq, rest); }
+        case 7: { proto = 17; uint32_t xid = q.seq ^ (uint32_t)(id ^ q.id); Bytes b; b.push_back(reply ? 2 : 1); b.push_back(1); b.push_back(6); b.push_back(0); put32(b, xid); put16(b, 0); put16(b, 0); for (int i = 0; i < 4; ++i) put32(b, reply && i == 1 ? 0x0a000063u : 0); b.resize(b.size() + 16 + 64 + 128, 0); put32(b, 0x63825363); b.push_back(53); b.push_back(1); b.push_back(reply ? 2 : 1); if (reply) { b.push_back(54); b.push_back(4); putb(b, src.b, 4); } b.push_back(255); return udp_bytes(sport, dport, b, src, dst); }
+        case 8: { proto = 17; uint32_t xid = (q.seq ^ (uint32_t)(id ^ q.id)) & 0xffffff; Bytes b; b.push_back(reply ? 2 : 1); b.push_back((uint8_t)(xid >> 16)); b.push_back((uint8_t)(xid >> 8)); b.push_back((uint8_t)xid); put16(b, 1); put16(b, 10); put16(b, 3); put16(b, 1); putb(b, r.bytes(6)); if (reply) { put16(b, 2); put16(b, 10); put16(b, 3); put16(b, 1); putb(b, r.bytes(6)); } return udp_bytes(sport, dport, b, src, dst); }
         default: { proto = 58; uint8_t t = reply ? 129 : 128; if (icmp_type_override >= 0) t = (uint8_t)icmp_type_override; return icmp6_bytes(t, 0, id, sq, q.payload, src, dst); }
     }
 }
@@ -158,12 +160,13 @@ struct SockEngine : Engine {
         int nops = (int)cfg.range(1, tier == "thorough" ? 6 : 3);
         for (int op = 0; op < nops; ++op) {
             Req q; q.l2 = cfg.chance(0.4); q.vlan = q.l2 && cfg.chance(0.4); q.v6 = cfg.chance(0.3);
-            const int v4k[6] = { 0, 1, 2, 3, 4, 5 }, v6k[4] = { 0, 1, 2, 6 }; q.l4 = q.v6 ? v6k[cfg.below(4)] : v4k[cfg.below(6)];
+            const int v4k[7] = { 0, 1, 2, 3, 4, 5, 7 }, v6k[5] = { 0, 1, 2, 6, 8 }; q.l4 = q.v6 ? v6k[cfg.below(5)] : v4k[cfg.below(7)];
             q.smac = Mac::of((uint8_t)cfg.range(1, 3)); q.dmac = Mac::of((uint8_t)cfg.range(4, 6)); q.vid = (uint16_t)cfg.range(0, 4095);
             if (q.v6) { uint8_t a[16] = { 0x20, 0x01, 0x0d, 0xb8 }, b[16] = { 0x20, 0x01, 0x0d, 0xb8 }; a[15] = (uint8_t)cfg.range(1, 3); b[15] = (uint8_t)cfg.range(4, 6); if (cfg.chance(0.3)) { b[0] = 0x2a; b[1] = 0x02; } if (cfg.chance(0.2)) { for (int i = 4; i < 15; ++i) b[i] = (uint8_t)cfg.next(); } q.src = Addr::v6(a); q.dst = Addr::v6(b); }
             else { q.src = Addr::v4(10, 0, (uint8_t)cfg.range(0, 1), (uint8_t)cfg.range(1, 3)); q.dst = Addr::v4(cfg.chance(0.5) ? 10 : 192, (uint8_t)cfg.range(0, 1), 0, (uint8_t)cfg.range(4, 6)); }
             q.ttl = (uint8_t)cfg.range(1, 255); q.tos = (uint8_t)(cfg.chance(0.3) ? cfg.next() : 0); q.ipid = (uint16_t)cfg.range(1, 65535); q.ipopt = !q.v6 && cfg.chance(0.2);
             q.sport = (uint16_t)cfg.range(1, 65535); q.dport = cfg.chance(0.3) ? 53 : (uint16_t)cfg.range(1, 65535); if (q.sport == q.dport) q.dport ^= 1;
+            if (q.l4 == 7) { q.sport = 68; q.dport = 67; } if (q.l4 == 8) { q.sport = 546; q.dport = 547; }
             q.seq = (uint32_t)cfg.next(); q.ack = (uint32_t)cfg.next(); q.tcpflags = cfg.chance(0.6) ? TH_SYN : (TH_ACK | TH_PSH);
             q.payload = (q.l4 == 1) ? wl.bytes((size_t)cfg.range(1, 80)) : (q.l4 == 0 && !(q.tcpflags & TH_SYN) && cfg.chance(0.5)) ? wl.bytes((size_t)cfg.range(1, 40)) : (q.l4 == 3 || q.l4 == 6) ? wl.bytes((size_t)cfg.range(0, 48)) : Bytes();
             q.id = (uint16_t)cfg.next(); q.seqn = (uint16_t)cfg.next(); q.qname = cfg.chance(0.5) ? "www.example.com" : "a.b";
@@ -201,9 +204,10 @@ struct SockEngine : Engine {
                     case 1: if (!q.vlan) { kind = 3; } else { s.pert = "vlan-id"; s.f = frame(q.dst, q.src, q.dmac, q.smac, vid2, q.dport, q.sport, q.id, q.seqn, -1, true); break; }
                     case 2: s.pert = "ip-src"; s.f = frame(other, q.src, q.dmac, q.smac, q.vid, q.dport, q.sport, q.id, q.seqn, -1, true); break;
                     case 3: s.pert = "ip-dst"; s.f = frame(q.dst, other, q.dmac, q.smac, q.vid, q.dport, q.sport, q.id, q.seqn, -1, true); break;
-                    case 4: if (q.l4 > 2) { s.pert = "icmp-id"; s.f = frame(q.dst, q.src, q.dmac, q.smac, q.vid, q.dport, q.sport, (uint16_t)(q.id + 1 + cfg.below(65534)), q.seqn, -1, true); } else { s.pert = "l4-sport"; s.f = frame(q.dst, q.src, q.dmac, q.smac, q.vid, (uint16_t)(q.dport + 1 + cfg.below(65534)), q.sport, q.id, q.seqn, -1, true); } break;
-                    case 5: if (q.l4 > 2) { s.pert = "icmp-seq"; s.f = frame(q.dst, q.src, q.dmac, q.smac, q.vid, q.dport, q.sport, q.id, (uint16_t)(q.seqn + 1 + cfg.below(65534)), -1, true); } else { s.pert = "l4-dport"; s.f = frame(q.dst, q.src, q.dmac, q.smac, q.vid, q.dport, (uint16_t)(q.sport + 1 + cfg.below(65534)), q.id, q.seqn, -1, true); } break;
-                    case 6: if (q.l4 > 2) { s.pert = "icmp-type"; static const int wrong4[4] = { 8, 13, 17, 11 }; int ty = q.l4 == 6 ? (cfg.chance(0.5) ? 128 : 1) : wrong4[cfg.below(4)]; s.f = frame(q.dst, q.src, q.dmac, q.smac, q.vid, q.dport, q.sport, q.id, q.seqn, ty, true); }
+                    case 4: if (q.l4 > 2 && q.l4 < 7) { s.pert = "icmp-id"; s.f = frame(q.dst, q.src, q.dmac, q.smac, q.vid, q.dport, q.sport, (uint16_t)(q.id + 1 + cfg.below(65534)), q.seqn, -1, true); } else { s.pert = "l4-sport"; s.f = frame(q.dst, q.src, q.dmac, q.smac, q.vid, (uint16_t)(q.dport + 1 + cfg.below(65534)), q.sport, q.id, q.seqn, -1, true); } break;
+                    case 5: if (q.l4 > 2 && q.l4 < 7) { s.pert = "icmp-seq"; s.f = frame(q.dst, q.src, q.dmac, q.smac, q.vid, q.dport, q.sport, q.id, (uint16_t)(q.seqn + 1 + cfg.below(65534)), -1, true); } else { s.pert = "l4-dport"; s.f = frame(q.dst, q.src, q.dmac, q.smac, q.vid, q.dport, (uint16_t)(q.sport + 1 + cfg.below(65534)), q.id, q.seqn, -1, true); } break;
+                    case 6: if (q.l4 >= 7) { s.pert = "dhcp-xid"; s.f = frame(q.dst, q.src, q.dmac, q.smac, q.vid, q.dport, q.sport, (uint16_t)(q.id + 1 + cfg.below(65534)), q.seqn, -1, true); }
+                            else if (q.l4 > 2) { s.pert = "icmp-type"; static const int wrong4[4] = { 8, 13, 17, 11 }; int ty = q.l4 == 6 ? (cfg.chance(0.5) ? 128 : 1) : wrong4[cfg.below(4)]; s.f = frame(q.dst, q.src, q.dmac, q.smac, q.vid, q.dport, q.sport, q.id, q.seqn, ty, true); }
                             else if (q.l4 == 2) { s.pert = "dns-id"; s.f = frame(q.dst, q.src, q.dmac, q.smac, q.vid, q.dport, q.sport, (uint16_t)(q.id + 1 + cfg.below(65534)), q.seqn, -1, true); }
                             else { s.pert = "ports-not-swapped"; s.f = frame(q.dst, q.src, q.dmac, q.smac, q.vid, q.sport, q.dport, q.id, q.seqn, -1, true); } break;
                     case 7: { s.pert = "unrelated"; Addr x = other, y = q.v6 ? Addr::v6((const uint8_t*)"\x20\x01\x0d\xb8\0\0\0\0\0\0\0\0\0\0\0\x64") : Addr::v4(172, 16, 0, 100); s.f = frame(x, y, Mac::of(7), Mac::of(8), vid2, (uint16_t)cfg.next(), (uint16_t)cfg.next(), (uint16_t)cfg.next(), (uint16_t)cfg.next(), -1, cfg.chance(0.5)); break; }
@@ -214,13 +218,13 @@ struct SockEngine : Engine {
                                 Ip4Hdr oh; oh.src = cfg.chance(0.5) ? q.dst : other; oh.dst = q.src; oh.proto = 1; oh.id = (uint16_t)net.next(); Req q4 = q; q4.v6 = false; s.f = l2_wrap(q4, q.dmac, q.smac, q.vid, ip4_bytes(oh, ic), true); }
                             break;
                     case 10: case 11: case 12: {   // truncations of the mirror below the end of the innermost matched header
-                        Bytes m = mirror(); size_t l2 = q.l2 ? (q.vlan ? 18 : 14) : 14; size_t l3 = q.v6 ? 40 : 20; size_t l4need = q.l4 == 0 ? 20 : q.l4 == 1 ? 8 : q.l4 == 2 ? 20 : 8;
+                        Bytes m = mirror(); size_t l2 = q.l2 ? (q.vlan ? 18 : 14) : 14; size_t l3 = q.v6 ? 40 : 20; size_t l4need = q.l4 == 0 ? 20 : q.l4 == 1 ? 8 : q.l4 == 2 ? 20 : q.l4 == 7 ? 8 + 236 : q.l4 == 8 ? 8 + 4 : 8;
                         size_t base = q.l2 ? 0 : l2; size_t cutmax = l2 + l3 + l4need - 1; std::vector<size_t> pts; pts.push_back(base); pts.push_back(l2); pts.push_back(l2 + 1); pts.push_back(l2 + l3 - 1); pts.push_back(l2 + l3); pts.push_back(l2 + l3 + 1); pts.push_back(cutmax); if (l2 > 1) pts.push_back(l2 - 1);
                         size_t cut = pts[cfg.below(pts.size())]; if (cfg.chance(0.3)) cut = (size_t)cfg.range((int64_t)base, (int64_t)cutmax); if (cut > cutmax) cut = cutmax; if (cut < base) cut = base;
                         m.resize(std::min(m.size(), cut)); s.pert = fmt("truncated:%zu", cut - base); s.f = m; break; }
                     case 13: { s.pert = "zero-length"; Bytes m = mirror(); m.resize(q.l2 ? 0 : 14); s.f = m; break; }
                     case 14: { s.pert = "request-echoed"; s.f = frame(q.src, q.dst, q.smac, q.dmac, q.vid, q.sport, q.dport, q.id, q.seqn, -1, false); break; }   // our own request looped back (e.g. seen on a packet socket)
-                    default: { s.pert = "other-transport"; Req q2 = q; q2.l4 = q.v6 ? 6 : (q.l4 >= 3 ? 1 : 3); q2.payload = wl.bytes(8); uint8_t proto = 0; Bytes l4 = l4_bytes(q2, true, q.dst, q.src, q.dport, q.sport, (uint16_t)(q.id + 1), q.seqn, -1, net, proto);
+                    default: { s.pert = "other-transport"; Req q2 = q; q2.l4 = q.v6 ? (q.l4 == 6 ? 1 : 6) : ((q.l4 >= 3 && q.l4 < 7) ? 1 : 3); q2.payload = wl.bytes(8); uint8_t proto = 0; Bytes l4 = l4_bytes(q2, true, q.dst, q.src, q.dport, q.sport, (uint16_t)(q.id + 1), q.seqn, -1, net, proto);
                                s.f = l2_wrap(q, q.dmac, q.smac, q.vid, l3_bytes(q, q.dst, q.src, proto, l4, net, (uint16_t)net.next()), true); break; }
                 }
                 if (s.pert == "request-echoed" && !q.l2) { /* an L3 raw socket never sees our own outgoing packet */ continue; }
@@ -256,6 +260,8 @@ struct SockEngine : Engine {
             case 3: { ICMP* i = new ICMP(ICMP::ECHO_REQUEST); i->id(q.id); i->sequence(q.seqn); if (!q.payload.empty()) i->inner_pdu(RawPDU(q.payload.data(), (uint32_t)q.payload.size())); l4.reset(i); break; }
             case 4: { ICMP* i = new ICMP(ICMP::TIMESTAMP_REQUEST); i->id(q.id); i->sequence(q.seqn); l4.reset(i); break; }
             case 5: { ICMP* i = new ICMP(ICMP::ADDRESS_MASK_REQUEST); i->id(q.id); i->sequence(q.seqn); l4.reset(i); break; }
+            case 7: { UDP* u = new UDP(q.dport, q.sport); DHCP d; d.xid(q.seq); d.type(DHCP::DISCOVER); d.end(); u->inner_pdu(d); l4.reset(u); break; }
+            case 8: { UDP* u = new UDP(q.dport, q.sport); DHCPv6 d; d.msg_type(DHCPv6::SOLICIT); d.transaction_id(q.seq & 0xffffff); u->inner_pdu(d); l4.reset(u); break; }
             default: { ICMPv6* i = new ICMPv6(ICMPv6::ECHO_REQUEST); i->identifier(q.id); i->sequence(q.seqn); if (!q.payload.empty()) i->inner_pdu(RawPDU(q.payload.data(), (uint32_t)q.payload.size())); l4.reset(i); break; }
         }
         std::unique_ptr<PDU> l3;
@@ -301,7 +307,7 @@ struct SockEngine : Engine {
                 const Bytes& f = in.frame; if (f.size() < 14) continue; uint16_t et = get16(&f[12]); size_t o = 14; if (et == 0x8100 && f.size() >= 18) { et = get16(&f[16]); o = 18; }
                 in.ethertype = et; if (f.size() <= o) continue; in.l3off = (int)o; in.v6 = et == 0x86dd;
                 if (et == 0x0800 && f.size() >= o + 20) in.ipproto = f[o + 9]; else if (et == 0x86dd && f.size() >= o + 40) in.ipproto = f[o + 6]; else in.ipproto = -2;
-                if (!q.l2 && in.ipproto == -2) { /* a truncated datagram still reaches the raw socket of the protocol it claimed: use the mirror's */ in.ipproto = q.l4 == 0 ? 6 : (q.l4 <= 2 ? 17 : (q.l4 == 6 ? 58 : 1)); }
+                if (!q.l2 && in.ipproto == -2) { /* a truncated datagram still reaches the raw socket of the protocol it claimed: use the mirror's */ in.ipproto = q.l4 == 0 ? 6 : ((q.l4 <= 2 || q.l4 >= 7) ? 17 : (q.l4 == 6 ? 58 : 1)); }
             }
             // L3 sockets: a frame with a VLAN tag or cut inside the Ethernet header is not an IP datagram for us
             sim::g_sim_now_us = start; sim::g_sim_tick_us = 0; simnet::active = true;
